@@ -415,7 +415,12 @@ def _scaling_classes(prog):
     fi = prog.func("scaling._get_channel_scaling")
     out = []
     for f in module_region(prog, fi):
-        for n in walk_body(f.node):
+        nodes = list(walk_body(f.node))
+        # module-level tables the code refers to:  _FACTORIES = (('Linear', LinearScaling.from_properties), ...)
+        for n in list(nodes):
+            if isinstance(n, ast.Name) and n.id in f.module.assigns and not isinstance(f.module.assigns[n.id], ast.Constant):
+                nodes += list(ast.walk(f.module.assigns[n.id]))
+        for n in nodes:
             c = None
             if isinstance(n, ast.Call) and isinstance(n.func, ast.Attribute) and n.func.attr == "from_properties":
                 c = prog.resolve_class(f.module, n.func.value)
